@@ -1676,6 +1676,7 @@ func TestVerifReplay(t *testing.T) {
 	gen = func(abc []string, cur []string, n int) { if len(cur) > 0 { cases = append(cases, append([]string{}, cur...)) }; if n == 0 { return }; for _, c := range abc { gen(abc, append(cur, c), n-1) } }
 	gen([]string{"1", "0", "2.5", "'s'", "a", "b", "+", "-", "/", "%", "^", "<<", "AND", "NOT", "=", "<", "IS", "NULL", "IN", "(", ")", "[", "]", ",", "MAX", "ARRAY", "g"}, nil, @L1@)
 	gen([]string{"1", "a", "b", "-", "/", "(", ")", "[", "]", ",", "MAX"}, nil, @L2@)
+	gen([]string{"\"\"", "\"a b\"", "''", "1", "+", "(", ")", "MAX", ","}, nil, 4)
 	@EXTRA@
 	managers := []variants.IVariantOperations{variants.NewTypeUnsafeVariantOperations(), variants.NewTypeSafeVariantOperations()}
 	bad := 0
